@@ -29,6 +29,22 @@ Theorem C16_mixed_trot_structural : forall (T : Type) (O : ops T) (t : T),
 Proof. intros; repeat split; reflexivity. Qed.
 Print Assumptions C16_mixed_trot_structural.
 
+(* numeric angle 0.3, symbolic translation (repaired by e615f54): rotation from the doubles (cos 0.3, sin 0.3),
+   translation stored unchanged *)
+Theorem C16_mixed_trot_num : forall v : V3 R,
+  tr_trotx_num_t Rops v = rt2tr3 Rops (rotx_cs Rops (k_cos03 Rops) (k_sin03 Rops)) v /\
+  tr_troty_num_t Rops v = rt2tr3 Rops (roty_cs Rops (k_cos03 Rops) (k_sin03 Rops)) v /\
+  tr_trotz_num_t Rops v = rt2tr3 Rops (rotz_cs Rops (k_cos03 Rops) (k_sin03 Rops)) v.
+Proof. intros; repeat split; gen_field. Qed.
+Print Assumptions C16_mixed_trot_num.
+
+Theorem C16_mixed_trot_num_structural : forall (T : Type) (O : ops T) (v : V3 T),
+  matches O (hom44 pat_rotx txxx) (fl44 (tr_trotx_num_t O v)) /\ matches O (hom44 pat_roty txxx) (fl44 (tr_troty_num_t O v)) /\
+  matches O (hom44 pat_rotz txxx) (fl44 (tr_trotz_num_t O v)) /\
+  transl3 (tr_trotx_num_t O v) = v /\ transl3 (tr_troty_num_t O v) = v /\ transl3 (tr_trotz_num_t O v) = v.
+Proof. intros; destruct v as [[x y] z]; repeat split; reflexivity. Qed.
+Print Assumptions C16_mixed_trot_num_structural.
+
 Theorem C16_mixed_transl : forall x y : R,
   tr_transl_x23 Rops x = tr_transl_xyz Rops x 2 3 /\ tr_transl_1y35 Rops y = tr_transl_xyz Rops 1 y (7/2) /\
   tr_transl_listx23 Rops x = tr_transl_list Rops (x,2,3) /\ tr_SE3_ctor_x23 Rops x = tr_SE3_ctor_xyz Rops x 2 3.
